@@ -169,9 +169,13 @@ CLAIMED = {
              "ingest filter keeps exactly the records that are not the discoverer's own and are strictly below the watched "
              "service; after ANY sequence of announcements (repeats of an instance included) get_known_services equals an abstract "
              "view instance name -> (instance as first advertised, expiry of the last reception); unescape (escape s) = s for all "
-             "byte strings. PARTIAL: re-announcements that change an instance's data (merged by the store) are covered by "
-             "the DISC slice (model vs implementation, independent python oracle; every case through both the sync and the tokio "
-             "copy of the ingest code).",
+             "byte strings; after ANY sequence of record batches for names directly below the service - re-announcements that "
+             "change an instance's data included - the store equals an abstract view instance label -> association list "
+             "(record, expiry) (an equal record takes the new expiry in place, a new one is appended) and get_known_services is "
+             "from_records over the unexpired records of each entry. Tied to /repo by the DISC slice (model vs implementation, "
+             "independent python oracle; re-announcements with supersets of addresses and ports; every case through both the "
+             "sync and the tokio copy of the ingest code). Not modelled: the HashMap iteration order in which the text of two "
+             "different TXT records under one owner is merged (the property does not speak about that case).",
         technique="Coq proof (composition of the attribute / TXT round trip, the compressed packet round trip and the filter characterisation) + model/implementation correspondence on announcement sequences",
         ref="DESIGN.md section 6, C15"),
     "C16": dict(
